@@ -22,3 +22,19 @@ Section C18.
        exists cs, all_some (map (fun se => edge_cylinder2 cfg (fst se) (snd se)) l) = Some cs /\ parts_of st' = parts_of st ++ [group_item c cs]).
   Proof. exact viewer_basic_calls. Qed.
 End C18.
+
+(* ---- geometry of an edge (real reading): the cylinder of an edge from s to e (s <> e) has its bottom ring at
+        s + F(circle point) and its top ring at bottom + (e - s); F is an isometry, so each bottom point lies at the
+        circle point's distance (the edge radius) from s in the plane through s perpendicular to e - s: the cylinder
+        runs from the start to the end of the edge ---- *)
+From Coq Require Import Reals.
+From SCAD Require Import Base.NumR Base.Mat Parts.Viewer_geom_proofs.
+Theorem C18_edge_cylinder_points : forall (r : R) (segments : Z) (s e : pt3 R) (c : list (pt2 R)) ph, s <> e ->
+  circle r segments = Some c -> cylinder r (pt3_len (pt3_sub e s)) segments = Some ph ->
+  fst (poly_translate (poly_apply_matrix ph (mt4_look_at_lh s e up_z)) s) =
+    map (edge_point s e) c ++ map (fun p => pt3_add (edge_point s e p) (pt3_sub e s)) c.
+Proof. exact edge_cylinder_points. Qed.
+Theorem C18_edge_point_on_circle : forall (s e : pt3 R) (c : pt2 R), s <> e ->
+  let d := pt3_sub (edge_point s e c) s in
+  (pt3_dot d d = x2 c * x2 c + y2 c * y2 c)%R /\ pt3_dot d (pt3_sub e s) = 0%R.
+Proof. exact edge_point_on_circle. Qed.
